@@ -6,8 +6,8 @@ HERE = os.path.dirname(os.path.dirname(os.path.abspath(__file__)))
 R = "Engine R: the real generic varpro/nalgebra code is executed on a symbolic real scalar (operator-level symbolic execution); every output element is an SMT term; obligations `path condition AND assumptions AND NOT property` are decided by z3 4.8.12 / z3 5.1 / cvc5 (QF_NRA / QF_UFNRA, plain and fraction-free encodings); all feasible paths are explored by flipping recorded branch decisions; counterexamples are replayed natively on f64 (dev and release) before a VIOLATION is printed"
 K = "Engine K: Kani 0.68 / CBMC 6.11 proof harnesses compiled inside an overlay copy of the crate (private state reachable), bounded by #[kani::unwind], unwinding assertions on"
 M = "Engine M: symbolic execution of the nightly MIR of the listed functions (64-bit bit-vectors for usize, uninterpreted model calls with symbolic fault Booleans), all paths, decided by z3; paths and counterexamples replayed natively"
-N = "Engine N (supplementary, NOT solver-based): native runs of the real build on f64/f32 under a watchdog -- non-finite/extreme inputs, a model failure at every call index, all termination reasons, builder decision table on small sizes; adds detection power and replayable inputs, never the deciding step"
-REAL = "decided over the reals (IEEE rounding/overflow outside the claim); SVD for M>=2 replaced by a planted exact factorisation whose input matrix is proved equal to W*Phi; frames exact rational or rationally parametrised rotations with symbolic parameters (sizes <= 3), shapes bounded (N<=4, M<=3, S<=3, P<=2 quick); trusted: rustc, nalgebra generic kernels, z3/cvc5, the Sym scalar (validated against native f64 runs each time)"
+N = "Engine N (supplementary, NOT solver-based): native runs of the real build on f64/f32 under a watchdog -- non-finite/extreme inputs, homogeneity in the observations at scales 2^-540..2^500, degenerate shapes, a model failure at every call index, all termination reasons, builder decision table on small sizes; adds detection power and replayable inputs, never the deciding step"
+REAL = "decided over the reals (IEEE rounding/overflow outside the claim: floating-point special cases -- squares leaving the range, exact zeros, the f32 width -- are only looked at by the supplementary native tier); the solver work of a run has a wall-clock budget (780 s quick / 6 h thorough), obligations not decided within it are listed as undischarged, never counted; SVD for M>=2 replaced by a planted exact factorisation whose input matrix is proved equal to W*Phi; frames exact rational or rationally parametrised rotations with symbolic parameters (sizes <= 3), shapes bounded (N<=4, M<=3, S<=3, P<=2 quick); trusted: rustc, nalgebra generic kernels, z3/cvc5, the Sym scalar (validated against native f64 runs each time)"
 
 CHECKS = {
  "C01": dict(tech="symbolic execution of real code on a symbolic scalar + SMT (QF_NRA)", engines=[R],
@@ -45,7 +45,7 @@ CHECKS = {
  "C16": dict(tech="symbolic execution with uninterpreted basis functions + SMT (EUF)", engines=[R, K],
              text="For every enumerated program (all ordered subsets up to arity 3 of up to 3 (quick) / 4 (thorough) model parameters, every derivative order, invariant functions at rotating positions; per arity 4..10: rotation, reversal, inner permutations with fixed endpoints, adjacent swaps, seeded random permutations, strict subsets with gaps of a larger list) and ALL parameter values and ALL basis functions: eval column j == f_j(x, params by name), derivative column == the supplied derivative or exactly 0, params round-trip.", note="programs enumerated (exhaustive within the stated bound), values and functions universally quantified; parametric in the scalar type"),
  "C17": dict(tech="symbolic execution with uninterpreted basis functions + SMT (EUF); facts per program", engines=[R, K],
-             text="Wrong output lengths (N-1, N+1, 0) at function / invariant / derivative positions, a derivative index >= P and wrong parameter counts each give an Err (which variant/payload is noted, not demanded) and never a panic or a short/long matrix; a rejected set_params leaves params and all evaluations (terms) unchanged; accepted calls return N x M.", note="programs enumerated; values universally quantified"),
+             text="Wrong output lengths (N-1, N+1, 0, exactly 1, 2N; N = 2, 3, 4) at function / invariant / derivative positions, a derivative index >= P and wrong parameter counts each give an Err (which variant/payload is noted, not demanded) and never a panic or a short/long matrix; a rejected set_params leaves params and all evaluations (terms) unchanged; accepted calls return N x M.", note="programs enumerated; values universally quantified"),
  "C18": dict(tech="symbolic execution of the real builder + SMT", engines=[R, M],
              text="After build(): params() == the model's parameters, residuals/coefficients present and correct, stored threshold == |eps| (or machine epsilon), for every order and repetition of the builder calls and all four constructors, all values.", note=REAL + "; the accept/reject decision of build() over SYMBOLIC 64-bit sizes (observations present, rows, columns, x length, weights length) is Engine M's part: Ok exactly when no requirement is violated, an Err names a requirement that is violated (priority among several left open); each MIR path replayed natively"),
 }
